@@ -429,6 +429,7 @@ Proof.
   - (* Pratt *) exact (proj1 (pratt_lift _ IH g ops ctx H0 H1 He n) _ _ _ _ _ Hr H).
   - (* GroupArr *) exact (group_sem_lift _ IH gs ctx p r [] [] o r' Hn He Hr H).
   - (* NestedIn *) discriminate.
+  - (* WithState *) discriminate.
 Qed.
 
 (* the shelter corollary: running on an empty register and merging the result back is running on the register *)
